@@ -276,10 +276,11 @@ def run(ck):
     else:
         ck.laws("Visibility_Laws", label="Laws:Visibility_Laws (DNF of licence trees)", timeout=ck.pick(1500, 10800))
         if ck.quick:
-            ck.mc("Visibility_MC", cfg_text=mc_cfg(2, False, [2], ["any_a", "eq_a1"]), workers=4, timeout=ck.pick(1500, 10800), label="MC:Visibility_MC N=2 2 scopes")
+            ck.mc("Visibility_MC", cfg_text=mc_cfg(2, False, [2], ["any_a"]), workers=4, timeout=ck.pick(1500, 10800), label="MC:Visibility_MC N=2 1 scope")
         else:
             ck.mc("Visibility_MC", cfg_text=mc_cfg(2, False, [1, 2], ["glob", "any_a", "eq_a1", "cat_dog"]), workers=4, timeout=10800,
                   label="MC:Visibility_MC N=2 4 scopes 2 nodes")
+            ck.mc("Visibility_MC", cfg_text=mc_cfg(3, False, [2], ["any_a"]), workers=4, timeout=10800, label="MC:Visibility_MC N=3 1 scope")
         D = ck.pick(7, 10)
         from pylib.common import seed
 
